@@ -1499,6 +1499,12 @@ def std_cell(case):
         nq = (q.bit_length() + 8 * W - 1) // (8 * W)
         addv(create_group_check(c, G, q, h)); calls += 5
         v, k = std_group_validators(c, G, q, h, ref, binary); addv(v); calls += k
+        # ecpSWU over the multi-word fields of the standard curves (Crandall, Barrett and MONTGOMERY representations: the internal form of
+        # the field unity differs), wherever its preconditions hold: p = 3 (mod 4), A != 0, B != 0
+        if not binary and E.p % 4 == 3 and E.a != 0 and E.b != 0:
+            for s_ in [2, 3, 5, E.p - 2, E.p // 2, (E.p + 1) // 2] + [fint('swu/%s/%d' % (name, i), 2, E.p - 2) for i in range(8 if tier == 'quick' else 40)] + [0, 1, E.p - 1]:
+                if swu_admissible(E, s_):
+                    addv(swu_check(c, s_)); calls += 1
         # (a) function table on all ordered pairs of the boundary set
         In = [None] + pts
         n0 = calls
@@ -1702,7 +1708,25 @@ def validators_cell(case):
         mkgroup(T, G, q, h)
     return {'calls': calls, 'viol': viol}
 
-CELLS = {'validators': validators_cell, 'group': group_cell, 'scalar': scalar_cell, 'addmul': addmul_cell, 'isonsweep': ison_sweep_cell, 'ison': ison_cell,
+def stdswu_cell(case):
+    """ecpSWU on one standard prime curve in every configuration (all standard curves, also those the quick tier does not run the full
+    table on): boundary and filler field elements against the map of STB 34.101.66 and the curve equation"""
+    fam, name, tier = case['fam'], case['name'], case['tier']
+    ref = ref_params(fam, name)
+    viol, calls = [], 0
+    for cfg in case['cfgs']:
+        c = get_ctx(cfg, ('p', ref['p'], ref['a'], ref['b']))
+        E = c.E
+        if not (E.p % 4 == 3 and E.a != 0 and E.b != 0):
+            continue
+        for s_ in [2, 3, 5, E.p - 2, E.p // 2, (E.p + 1) // 2] + [fint('swu/%s/%d' % (name, i), 2, E.p - 2) for i in range(8 if tier == 'quick' else 40)] + [0, 1, E.p - 1]:
+            if swu_admissible(E, s_):
+                v = swu_check(c, s_); calls += 1
+                if v and all(v[0] + v[1]['cfg'] != w[0] + w[1]['cfg'] for w in viol):
+                    viol.append(v)
+    return {'calls': calls, 'viol': viol}
+
+CELLS = {'stdswu': stdswu_cell, 'validators': validators_cell, 'group': group_cell, 'scalar': scalar_cell, 'addmul': addmul_cell, 'isonsweep': ison_sweep_cell, 'ison': ison_cell,
          'swu': swu_cell, 'std': std_cell}
 
 def run_cell(case):
@@ -1722,8 +1746,8 @@ def cell_name(case):
         return '%s:%s:m=%d:%s' % ('ecMulA' if case['mode'] == 0 else 'ecHasOrderA', case['cid'], case['m'], case['layout'])
     if k == 'addmul':
         return 'ecAddMulA:%s:%s' % (case['cid'], case['sub'])
-    if k == 'std':
-        return 'std:%s:%s' % (case['fam'], case['name'])
+    if k in ('std', 'stdswu'):
+        return '%s:%s:%s' % (k, case['fam'], case['name'])
     return '%s:%s' % (k, case.get('cid') or spec_str(case['spec']))
 
 def jcase(case):
@@ -1829,6 +1853,9 @@ def all_cases(tier, tables_out):
         r = ref_params(fam, name)
         bits = r['poly'][0] if fam == 'dstu' else r['p'].bit_length()
         cases.append({'kind': 'std', 'fam': fam, 'name': name, 'tier': tier, 'cfgs': list(CFGS), 'bits': bits})
+    for fam, name in std_list('thorough'):
+        if fam != 'dstu':
+            cases.append({'kind': 'stdswu', 'fam': fam, 'name': name, 'tier': tier, 'cfgs': list(CFGS), 'bits': ref_params(fam, name)['p'].bit_length()})
     seen = set()
     for cid, spec, job, cfgs in ec2_jobs(tier):
         poly = spec[1]
